@@ -35,9 +35,20 @@ def _worker(dates):
     from _gettsim.config import DEFAULT_TARGETS, TYPES_INPUT_VARIABLES
 
     documented = set(TYPES_INPUT_VARIABLES) | venv.documented_inputs()
-    out = {"items": {}, "n_obl": 0, "n_rules": 0, "solver_s": 0.0, "dates": [str(d) for d in dates], "assumed": set()}
+    out = {"items": {}, "n_obl": 0, "n_rules": 0, "solver_s": 0.0, "dates": [str(d[0]) for d in dates], "assumed": set()}
     seen = {}
-    for d in dates:
+    days = []
+    for lo, hi in dates:
+        days.append(lo)
+        if hi != lo:
+            # "nothing changes inside a class" is C07's statement; it is not relied upon here: if the real
+            # loader returns anything different on the last day of the class, that day is verified as well
+            e_lo, e_hi = venv.Env(lo), venv.Env(hi)
+            same = rules.group_fps(e_lo) == rules.group_fps(e_hi) and {n: inspect.unwrap(f).__qualname__ for n, f in e_lo.functions.items()} == {n: inspect.unwrap(f).__qualname__ for n, f in e_hi.functions.items()}
+            out["n_last_days_compared"] = out.get("n_last_days_compared", 0) + 1
+            if not same:
+                days.append(hi)
+    for d in days:
         e = venv.Env(d)
         tag = str(d)
         df = facts.DagFacts(e)
@@ -144,8 +155,9 @@ def run(tier="quick", seed=0, jobs=16):
                        "facts about aggregation / grouping / time-conversion nodes come from the kernel contracts of C11-C13 (assume-guarantee cut points)"]
     rep.trusted = ["dags.create_dag builds the dependency graph from the argument names", "networkx.is_directed_acyclic_graph", "z3 5.1.0 / cvc5 1.4.0", "E1 encoder (vt/symx.py)"]
     last = venv.last_parameter_date()
-    classes = [c[0] for c in venv.date_classes(since=rules.D2015, until=last)]
-    results = par.pmap(_worker, par.chunks(classes, jobs), jobs)
+    class_pairs = venv.date_classes(since=rules.D2015, until=last)
+    classes = [c[0] for c in class_pairs]
+    results = par.pmap(_worker, par.chunks(class_pairs, jobs), jobs)
     items = {}
     n_obl = 0
     n_rules = 0
